@@ -13,7 +13,7 @@ use oracle::tables;
 use serde_json::json;
 
 pub const ID: &str = "C06";
-pub const FAMS: [&str; 7] = ["spare-bits", "residues", "class-edge", "every-length", "real-world-prefixes", "crafted", "power-of-two-lengths"];
+pub const FAMS: [&str; 8] = ["spare-bits", "residues", "class-edge", "every-length", "real-world-prefixes", "crafted", "power-of-two-lengths", "tight-in-smaller-version"];
 
 fn spare(v: usize, level: usize, mode: usize, len: usize) -> isize {
     8 * tables::layout(v, level).data_codewords as isize - (4 + tables::cci_bits(v, mode) + tables::payload_bits(mode, len)) as isize
@@ -75,6 +75,26 @@ pub fn jobs(ctx: &Ctx) -> Vec<Job> {
                             push(&mut jobs, FAMS[3], mode, level, v, rng.below(cap + 1), &mut k);
                         }
                     }
+                }
+            }
+        }
+    }
+    // a payload that leaves 0..5 spare bits in its SMALLEST version, built in a forced LARGER version (next one, three
+    // up, 40): terminator and padding must follow the version actually used
+    for vm in 1..40usize {
+        for level in 0..4usize {
+            for mode in 0..3usize {
+                let cap = caps.cap(vm, level, mode);
+                let mut len = cap as isize;
+                while len >= 0 && spare(vm, level, mode, len as usize) <= 5 {
+                    if caps.vmin(level, mode, len as usize) == Some(vm) {
+                        for f in [vm + 1, (vm + 3).min(40), 40] {
+                            if (vm + level + mode + f) % 3 == 0 || ctx.tier == Tier::Thorough {
+                                push(&mut jobs, FAMS[7], mode, level, f, len as usize, &mut k);
+                            }
+                        }
+                    }
+                    len -= 1;
                 }
             }
         }
